@@ -7,6 +7,7 @@ rotation of the property and whose product/restore structure is checked on a pro
 domain; (3) Rotate(U), UTransform(U), UDaggerTransform(U) are interpreted end to end for a
 symbolic U and compared with U^dagger A U / U A U^dagger; (4) the two WeightedRotation bodies
 are compared as normal forms; (5) the Const accessors are enumerated over an index window."""
+from guarded import same, explain
 from astdb import AnalysisBroken, walk, strip
 from interp import Interp, Obj, Cell, Thrown, Ptr, Region, ITE, Cond, Unsupported, Opaque, NULL
 from kernels import make_suv, GslMatrix, KernelHooks
@@ -71,7 +72,7 @@ def check_rotation_kernels(db, rep, tier):
                     wim = norm_trig(oracle[k][1])
                     if isinstance(got, Poly):
                         got = norm_trig(got)
-                    if isinstance(got, Poly) and got.equals(want) and wim.equals(Poly()):
+                    if same(got, want) and wim.equals(Poly()):
                         rep.ok('A.rot.table')
                     else:
                         bad += 1
@@ -124,6 +125,73 @@ def rotation_sequence(db, which, d):
     return f, hooks.seq
 
 
+def new_const(db, it):
+    """a Const object built by interpreting its real constructor (so that every member, present or future, is initialised)"""
+    ctor = db.one('const', 'squids::Const::Const', 0)
+    this = Cell(Obj('squids::Const', None, 'params'), None, 0, 'params')
+    try:
+        it.call(ctor, this, [])
+    except (Thrown, IndexViolation) as e:
+        raise AnalysisBroken('Const constructor: %s' % e)
+    return this
+
+
+def matrix_entries(res, d):
+    from kernels import matrix_of
+    if not isinstance(res, Obj) or 'p' not in res.fields:
+        raise AnalysisBroken('GetTransformationMatrix did not return a unique_ptr')
+    U = matrix_of(res.fields['p'].value)
+    return [[U.get(r, c) for c in range(d)] for r in range(d)]
+
+
+def check_const_history(db, rep):
+    """G.umat.state: the mixing matrix is a function of the stored angles and phases only.  For every dimension and
+    every plane (i,j): [set angle; get U; set a new angle or phase; get U] on one object must give the matrix a fresh
+    object gives after the same stores (a result remembered from before the store must not be handed out)."""
+    unit = db.unit('const')
+    fU = db.one('const', 'squids::Const::GetTransformationMatrix', 1)
+    fA = db.one('const', 'squids::Const::SetMixingAngle', 3)
+    fP = db.one('const', 'squids::Const::SetPhase', 3)
+    n = 0
+    for d in DIMS:
+        for j in range(1, d):
+            for i in range(j):
+                for kind in ('angle', 'phase'):
+                    n += 1
+                    site = 'history/%d/%s(%d,%d)' % (d, kind, i, j)
+                    try:
+                        hooks = GslHooks()
+                        it = Interp(unit, hooks)
+                        obj = new_const(db, it)
+                        it.call(fA, obj, [i, j, Poly.var('th0')])
+                        it.call(fU, obj, [d])
+                        if kind == 'angle':
+                            it.call(fA, obj, [i, j, Poly.var('th1')])
+                        else:
+                            it.call(fP, obj, [i, j, Poly.var('del1')])
+                        got = matrix_entries(it.call(fU, obj, [d]), d)
+                        hooks2 = GslHooks()
+                        it2 = Interp(unit, hooks2)
+                        ref = new_const(db, it2)
+                        it2.call(fA, ref, [i, j, Poly.var('th1' if kind == 'angle' else 'th0')])
+                        if kind == 'phase':
+                            it2.call(fP, ref, [i, j, Poly.var('del1')])
+                        want = matrix_entries(it2.call(fU, ref, [d]), d)
+                    except Thrown as t:
+                        rep.fail('G.umat.state', site, unit.loc(t.node), 'a mixing matrix', 'throw: %s' % t.what, fU['name'])
+                        continue
+                    bad = [(r, c) for r in range(d) for c in range(d) if not got[r][c].equals(want[r][c])]
+                    if bad:
+                        r, c = bad[0]
+                        rep.fail('G.umat.state', site, unit.loc(fU), 'the matrix built from the angles and phases stored now',
+                                 'after Set%s(%d,%d,.) the matrix requested again differs from the one a fresh object gives for the same stored values, e.g. entry (%d,%d) = %s instead of %s'
+                                 % ('MixingAngle' if kind == 'angle' else 'Phase', i, j, r, c, got[r][c], want[r][c]), fU['name'])
+                    else:
+                        rep.ok('G.umat.state')
+    rep.floor('G.umat.state', n, 60)
+    rep.sample('G.umat.state', '%d two-request histories (every dimension, every plane, angle and phase): second request reflects the store' % n)
+
+
 def transformation_word(db, d):
     """interpret Const::GetTransformationMatrix(d) in word mode; returns (fdecl, product word of U, hooks)"""
     unit = db.unit('const')
@@ -141,8 +209,8 @@ def transformation_word(db, d):
             return Poly.var('del_%s_%s' % (it.eval(args[0]), it.eval(args[1])))
         return orig(it, fdecl, node, args, this_cell)
     hooks.override_call = override
-    this = Cell(Obj('squids::Const', None, 'params'), None, 0, 'params')
     it = Interp(unit, hooks)
+    this = new_const(db, it)
     res = it.call(f, this, [d])
     if not isinstance(res, Obj) or 'p' not in res.fields:
         raise AnalysisBroken('GetTransformationMatrix did not return a unique_ptr')
@@ -527,3 +595,4 @@ def run(db, rep, tier):
     check_sandwich(db, rep, tier)
     check_weighted(db, rep)
     check_const_accessors(db, rep)
+    check_const_history(db, rep)
